@@ -173,8 +173,11 @@ class KeyedList(Generic[ItemType, KeyType], MutableSequence, KeyedBase):  # pyli
         if isinstance(index_or_key, slice):
             raise RuntimeError("Cannot delete multiple values at a time.")
         if isinstance(index_or_key, int):
-            value = self._list.pop(index_or_key)
-            del self._dict[self.key(value)]
+            # Key the item before removing anything (the key function is
+            # user code and may raise).
+            key = self.key(self._list[index_or_key])
+            del self._list[index_or_key]
+            del self._dict[key]
             return
 
         index = self.index_for_key(index_or_key)
